@@ -29,7 +29,7 @@ class C03:
     ASSUMPTIONS = ["non-integer occupations are checked only by the Python malformed stream (TypeError), the model's states are integer lists"]
 
     def generate(self, rng, tier):
-        n = 400 if tier == "quick" else 8000
+        n = 400 if tier == "quick" else 20000
         cases = []
         for i in range(n):
             prog, cid, nin, hp = fg.gen_circuit(rng, tier, lossy=None if i % 3 else False)
